@@ -19,10 +19,17 @@ const VerInfo VERS[] = {
 	{"FO4_132", 0x14020007, 12, 132}, {"FO4_139", 0x14020007, 12, 139}, {"FO76", 0x14020007, 12, 155},
 	{"SF172", 0x14020007, 12, 172},  {"SF173", 0x14020007, 12, 173}};
 const int NVERS = 14;
+#define FO3S(n) {"FO3s" #n, 0x14020007, 11, n}
+const VerInfo XVERS[] = {FO3S(12), FO3S(13), FO3S(14), FO3S(15), FO3S(16), FO3S(17), FO3S(20), FO3S(21), FO3S(22), FO3S(23), FO3S(24), FO3S(25),
+						 FO3S(26), FO3S(27), FO3S(28), FO3S(29), FO3S(33), FO3S(35), FO3S(75), FO3S(76), FO3S(77), FO3S(82)};
+#undef FO3S
+const int NXVERS = 22;
 
 const VerInfo* findVer(const std::string& name) {
 	for (int i = 0; i < NVERS; i++)
 		if (name == VERS[i].n) return &VERS[i];
+	for (int i = 0; i < NXVERS; i++)
+		if (name == XVERS[i].n) return &XVERS[i];
 	return nullptr;
 }
 
